@@ -433,6 +433,23 @@ impl Message<W> for B {
     }
 }
 
+struct U(u32);
+impl Message<U> for B {
+    type Reply = ();
+    async fn handle(&mut self, m: U, _: &ActorRef<Self>) {
+        self.log.lock().unwrap().push(m.0);
+    }
+}
+/// handled, then the actor kills itself
+struct Q(u32);
+impl Message<Q> for B {
+    type Reply = ();
+    async fn handle(&mut self, m: Q, r: &ActorRef<Self>) {
+        self.log.lock().unwrap().push(m.0);
+        let _ = r.kill();
+    }
+}
+
 #[allow(deprecated)]
 fn blocking(rep: &mut Report) {
     let rt = tokio::runtime::Builder::new_multi_thread().worker_threads(4).enable_time().build().unwrap();
@@ -659,6 +676,73 @@ fn blocking(rep: &mut Report) {
             let _ = r.kill();
             let _ = tokio::time::timeout(Duration::from_secs(10), jh).await;
         });
+    }
+    // (b6) a pending blocking_ask on an actor that ends gets an error whatever the reply type is (unit included)
+    {
+        note("blocking (b6): blocking_ask(.., None) with a unit reply, the actor is killed while the request is queued".into());
+        let log = Arc::new(Mutex::new(vec![]));
+        let (r, jh) = rt.block_on(async { spawn_with_mailbox_capacity::<B>((log.clone(), 400), 4) });
+        r.blocking_tell(W(1), None).unwrap(); // in the handler for 400 ms
+        std::thread::sleep(Duration::from_millis(20));
+        let r2 = r.clone();
+        let th = std::thread::spawn(move || r2.blocking_ask(U(97), None));
+        std::thread::sleep(Duration::from_millis(100));
+        let _ = r.kill();
+        let res = th.join().unwrap();
+        calls += 1;
+        rt.block_on(async { let _ = tokio::time::timeout(Duration::from_secs(10), jh).await; });
+        let handled = log.lock().unwrap().contains(&97);
+        match (&res, handled) {
+            (Err(_), false) => {}
+            (Ok(()), true) => {}
+            other => rep.v("C17 C03", format!("blocking_ask(U(97), None) (unit reply) on an actor killed with the request queued: returned {:?} and the handler {} (an Ok needs the handler to have run; a pending ask on an ended actor returns an error)", other.0, if handled { "ran" } else { "never ran" })),
+        }
+    }
+    // (b7) a blocking_tell parked on a full mailbox when the actor dies: Err(Send) and exactly one dead letter, like tell
+    {
+        note("blocking (b7): blocking_tell(.., None) parked on a full mailbox, then the actor is killed".into());
+        harness::log::install();
+        let log = Arc::new(Mutex::new(vec![]));
+        let (r, jh) = rt.block_on(async { spawn_with_mailbox_capacity::<B>((log.clone(), 400), 1) });
+        r.blocking_tell(W(1), None).unwrap();
+        std::thread::sleep(Duration::from_millis(20));
+        r.blocking_tell(W(2), None).unwrap(); // fills the only slot
+        let before = harness::log::DEAD_LETTER_EVENTS.load(SeqCst);
+        let r2 = r.clone();
+        let th = std::thread::spawn(move || r2.blocking_tell(W(98), None));
+        std::thread::sleep(Duration::from_millis(100));
+        let _ = r.kill();
+        let res = th.join().unwrap();
+        rt.block_on(async { let _ = tokio::time::timeout(Duration::from_secs(10), jh).await; });
+        std::thread::sleep(Duration::from_millis(20));
+        let delta = harness::log::DEAD_LETTER_EVENTS.load(SeqCst) - before;
+        calls += 1;
+        if !matches!(res, Err(rsactor::Error::Send { .. })) {
+            rep.v("C17 C03", format!("blocking_tell parked on a full mailbox of an actor that is then killed: expected Err(Send), got {res:?}"));
+        } else if delta != 1 {
+            rep.v("C17 C13", format!("blocking_tell parked on a full mailbox returned Err(Send) when the actor was killed, but {delta} dead letter(s) were recorded for it (exactly one, as for tell)"));
+        }
+    }
+    // (b8) what a blocking_tell with a timeout returns agrees with what happened to the message, also when the
+    //      actor ends right after handling it
+    {
+        note("blocking (b8): blocking_tell(.., Some(500 ms)) to actors that kill themselves in the handler".into());
+        let mut bad = None;
+        for k in 0..60u32 {
+            let log = Arc::new(Mutex::new(vec![]));
+            let (r, jh) = rt.block_on(async { spawn_with_mailbox_capacity::<B>((log.clone(), 0), 4) });
+            let res = r.blocking_tell(Q(k), Some(Duration::from_millis(500)));
+            rt.block_on(async { let _ = tokio::time::timeout(Duration::from_secs(10), jh).await; });
+            let n = log.lock().unwrap().iter().filter(|x| **x == k).count();
+            calls += 1;
+            if (res.is_ok() && n != 1) || (res.is_err() && n != 0) {
+                bad = Some((k, format!("{res:?}"), n));
+                break;
+            }
+        }
+        if let Some((k, res, n)) = bad {
+            rep.v("C17 C01", format!("blocking_tell(Q({k}), Some(500 ms)) to an actor that ends right after handling the message returned {res} although the message was handled {n} time(s): an error means never handled"));
+        }
     }
     // (c) the timeout variants may be called from inside a runtime context
     {
@@ -1115,6 +1199,55 @@ fn refs(rep: &mut Report) {
                 }
             }
         }
+    });
+    // identity and target travel together through every way of copying a handle
+    rt.block_on(async {
+        note("refs: identity through clone / clone_from / downgrade / upgrade / erased conversions between two actors".into());
+        let la = Arc::new(Mutex::new(vec![]));
+        let lb = Arc::new(Mutex::new(vec![]));
+        let (a, _ja) = spawn_with_mailbox_capacity::<B>((la.clone(), 0), 4);
+        let (b, _jb) = spawn_with_mailbox_capacity::<B>((lb.clone(), 0), 4);
+        tokio::task::yield_now().await;
+        let mut strong_slot = a.clone();
+        strong_slot.clone_from(&b);
+        let mut weak_slot = ActorRef::downgrade(&a);
+        weak_slot.clone_from(&ActorRef::downgrade(&b));
+        let mut vec_slots = vec![ActorRef::downgrade(&a)];
+        vec_slots.clone_from(&vec![ActorRef::downgrade(&b)]);
+        let erased: Box<dyn rsactor::TellHandler<W>> = (&b).into();
+        let erased_weak = rsactor::TellHandler::downgrade(&*erased);
+        let checks: Vec<(&str, rsactor::Identity, Option<ActorRef<B>>)> = vec![
+            ("ActorRef::clone_from", ActorRef::identity(&strong_slot), Some(strong_slot.clone())),
+            ("ActorWeak::clone_from", ActorWeak::identity(&weak_slot), ActorWeak::upgrade(&weak_slot)),
+            ("Vec<ActorWeak>::clone_from", ActorWeak::identity(&vec_slots[0]), ActorWeak::upgrade(&vec_slots[0])),
+            ("ActorRef::clone", ActorRef::identity(&b.clone()), Some(b.clone())),
+            ("downgrade+upgrade", ActorWeak::identity(&ActorRef::downgrade(&b)), ActorWeak::upgrade(&ActorRef::downgrade(&b))),
+        ];
+        cases += checks.len() as u64 + 2;
+        for (i, (what, id, target)) in checks.into_iter().enumerate() {
+            if id != ActorRef::identity(&b) {
+                rep.v("C11", format!("{what}: the handle reports identity {id:?} but it was copied from a handle of {:?}", ActorRef::identity(&b)));
+            }
+            match target {
+                Some(t) => {
+                    if ActorRef::identity(&t) != ActorRef::identity(&b) {
+                        rep.v("C11", format!("{what}: upgrade()/clone of the handle reports identity {:?}, expected {:?}", ActorRef::identity(&t), ActorRef::identity(&b)));
+                    }
+                    let _ = t.ask(W(900 + i as u32)).await;
+                }
+                None => rep.v("C11", format!("{what}: the copied weak handle does not upgrade although its actor is alive and referenced")),
+            }
+        }
+        if rsactor::TellHandler::as_control(&*erased).identity() != ActorRef::identity(&b) || erased_weak.as_weak_control().identity() != ActorRef::identity(&b) {
+            rep.v("C11 C16", "a type-erased handle of b reports another identity".into());
+        }
+        let got_b = lb.lock().unwrap().iter().filter(|x| **x >= 900).count();
+        let got_a = la.lock().unwrap().iter().filter(|x| **x >= 900).count();
+        if got_b != 5 || got_a != 0 {
+            rep.v("C11", format!("messages sent through handles copied from b: {got_b} reached b and {got_a} reached a (expected 5 and 0): identity and target must travel together"));
+        }
+        let _ = a.kill();
+        let _ = b.kill();
     });
     rep.s("refs", format!("cases={cases}"));
 }
